@@ -77,6 +77,22 @@ add("C15", "xenum", "exploration",
     "Seeds, blinds, contexts are fixed alphabets; blinds are passed as exact-capacity slices (aliasing is C16's subject).",
     "DESIGN.md 4 C15")
 
+add("C06", "xenum", "exploration",
+    "bounded exhaustive enumeration of (request, blind, client key) inputs to the real attester: every single-bit flip of each of the six inputs of 2/4 honest triples, every signature length 0..97, foreign signatures / blinds / keys, malformed key encodings; reference verdict from crypto/ecdsa and an independent key-blinding reference; cache watched for writes",
+    "VerifyRequest returns nil exactly when the signature verifies under the request key over the hand-rebuilt message and the request key equals the client key multiplied by the reference blinding factor; every rejected request leaves the cache dump and Put count unchanged (also when the client was already registered).",
+    "Honest triples use boundary-scalar secrets and blinds; requests are handed over as structs as the API takes them.",
+    "DESIGN.md 4 C06")
+add("C12", "xenum", "exploration",
+    "bounded exhaustive enumeration of curves x signing scalars x blind encodings x contexts x digest lengths and all pairs of blinds/contexts, against an RFC 9380 expand_message_xmd / hash_to_field reference and crypto/elliptic / crypto/ecdsa",
+    "Blinded public key == factor*pk with the independently recomputed factor on all four curves; blinded signatures verify under the blinded key (this package and crypto/ecdsa) and not under the unblinded key; unblind inverts blind; two blinds commute; changing exactly the blind or exactly the context changes the key; encodings of the same blind scalar give the same key.",
+    "Scalars, blinds (incl. leading-zero, >= N and over-long encodings), contexts and digests come from boundary alphabets; P-224 is pinned to (SHA-256, L=32) as in the code, no RFC suite fixes it.",
+    "DESIGN.md 4 C12")
+add("C13", "xenum+envx", "exploration",
+    "bounded exhaustive differential enumeration against crypto/ecdsa: 18x18 boundary (r,s) pairs around honest signatures x digest variants, ~1000-1700 DER mutations per honest ASN.1 signature, cross acceptance of every producer, and every entropy-fault script with <= 1/2 deviations for key generation and the signing entry points",
+    "Verify/VerifyASN1 verdicts equal the standard library's on every case; every signature produced here verifies there and vice versa; an entropy reader error at any enumerated read position yields an error and no key/signature, and short reads without error yield the same result as the default script (both MaybeReadByte coin outcomes observed per script).",
+    "Valid public keys only (an off-curve key panics inside crypto/elliptic by design); values outside the boundary sets are not covered.",
+    "DESIGN.md 4 C13")
+
 NOT_APPLICABLE = {}
 
 ALL = ["C%02d" % i for i in range(1, 21)]
